@@ -565,6 +565,62 @@ def s_if(b: MB, depth=0):
     b.vals.append(Val(o, TP.FLOAT, x.shape))
 
 
+def s_loop_scan(b: MB):
+    """Loop / Scan bodies: formal inputs inside a body (graph-input guard), captured outer values, foldable constants,
+    an Identity alias on a body output."""
+    rng = b.rng
+    x = b.pick(lambda v: dyn_f(v) and v.static() and 1 <= len(v.shape) <= 2 and v.numel() > 0)
+    if x is None:
+        return
+    b.consumed.add(x.name)
+    k1, k2 = b.fresh("lw"), b.fresh("lw")
+    body_consts = [h.make_node("Constant", [], [k1], value=nh.from_array(b.rand_array(TP.FLOAT, []), k1 + "_t")),
+                   h.make_node("Constant", [], [k2], value=nh.from_array(b.rand_array(TP.FLOAT, []), k2 + "_t"))]
+    kk = b.fresh("lw")
+    fold = h.make_node("Mul", [k1, k2], [kk])  # foldable inside the body
+    oc = b.pick(lambda v: is_f(v) and v.const and v.shape in ([], [1]))
+    if rng.random() < 0.5:
+        it, ci, v, co, vo, t = (b.fresh("li") for _ in range(6))
+        nodes = body_consts + [fold, h.make_node("Mul", [v, kk], [t])]
+        if oc is not None and rng.random() < 0.6:
+            t2 = b.fresh("li")
+            nodes.append(h.make_node("Add", [t, oc.name], [t2]))  # captured outer constant
+            b.consumed.add(oc.name)
+            t = t2
+        if rng.random() < 0.5:
+            nodes.append(h.make_node("Identity", [t], [vo]))  # alias on a body output
+        else:
+            nodes.append(h.make_node("Neg", [t], [vo]))
+        nodes.append(h.make_node("Identity", [ci], [co]))
+        body = h.make_graph(nodes, "loop_body",
+                            [h.make_tensor_value_info(it, TP.INT64, []), h.make_tensor_value_info(ci, TP.BOOL, []),
+                             h.make_tensor_value_info(v, TP.FLOAT, x.shape)],
+                            [h.make_tensor_value_info(co, TP.BOOL, []), h.make_tensor_value_info(vo, TP.FLOAT, x.shape)])
+        m = b.const(np.array(rng.randint(1, 3), dtype=np.int64))
+        c = b.const(np.array(True))
+        o = b.fresh()
+        b.nodes.append(h.make_node("Loop", [m.name, c.name, x.name], [o], body=body))
+        b.consumed.update([m.name, c.name])
+        b.vals.append(Val(o, TP.FLOAT, x.shape))
+        b.tag("loop")
+    else:
+        if len(x.shape) != 2:
+            return
+        st_in, el, st_out, so = (b.fresh("sc") for _ in range(4))
+        row = [x.shape[1]]
+        nodes = body_consts + [fold, h.make_node("Add", [st_in, el], [st_out]), h.make_node("Mul", [el, kk], [so])]
+        body = h.make_graph(nodes, "scan_body",
+                            [h.make_tensor_value_info(st_in, TP.FLOAT, row), h.make_tensor_value_info(el, TP.FLOAT, row)],
+                            [h.make_tensor_value_info(st_out, TP.FLOAT, row), h.make_tensor_value_info(so, TP.FLOAT, row)])
+        init = b.const(b.rand_array(TP.FLOAT, row))
+        o1, o2 = b.fresh(), b.fresh()
+        b.nodes.append(h.make_node("Scan", [init.name, x.name], [o1, o2], body=body, num_scan_inputs=1))
+        b.consumed.add(init.name)
+        b.vals.append(Val(o1, TP.FLOAT, row))
+        b.vals.append(Val(o2, TP.FLOAT, x.shape))
+        b.tag("scan")
+
+
 def s_gates(b: MB):
     r = b.rng.random()
     if r < 0.3:
@@ -673,7 +729,7 @@ def s_const_nodes(b: MB):
 SNIPPETS = [
     (s_elementwise, 5), (s_const_arith, 4), (s_transpose_const, 2), (s_cast, 4), (s_shape_chain, 6),
     (s_reshape_const, 3), (s_concat_zero, 2), (s_dropout, 3), (s_identity, 3), (s_sequence, 3),
-    (s_if, 4), (s_gates, 2), (s_init_input, 2), (s_const_nodes, 2),
+    (s_if, 4), (s_gates, 2), (s_init_input, 2), (s_const_nodes, 2), (s_loop_scan, 2),
 ]
 
 
